@@ -170,13 +170,19 @@ def check_solve(game, mods, order=None):
     vs, conv = vstar(game)
     acyc = is_acyclic(tl)
     # ---- C06: termination and exceptions
+    # "declared unsolvable": a ValueError of the pruned solve that is the documented message, or -- should the wording ever change -- any
+    # ValueError of the pruned solve of a game whose unpruned solve reports initial value 0 (the wording is not part of any property)
+    def declared_unsolvable(prune):
+        e = res[prune][1]
+        return res[prune][0] == 'err' and isinstance(e, ValueError) and prune and \
+            (NOSOL in str(e) or (res[False][0] == 'ok' and res[False][1][3][0] == 0))
     for prune in (True, False):
         kind = res[prune][0]
         if kind == 'timeout':
             fail({'C06'}, 'terminates', f'solve(prune={prune}) did not return within 20 s')
         elif kind == 'err':
             e = res[prune][1]
-            if not (isinstance(e, ValueError) and NOSOL in str(e) and prune):
+            if not declared_unsolvable(prune):
                 # a legal stopping game for which solve produces no result at all: every property that states what solve reports fails with it
                 fail({'C06', 'C01', 'C02', 'C03', 'C04', 'C05', 'C14'}, 'no-other-error', f'solve(prune={prune}) raised {type(e).__name__}: {e}')
     okF = res[False][0] == 'ok'
@@ -184,14 +190,14 @@ def check_solve(game, mods, order=None):
     if okF:
         rpF = res[False][1][3]
         nosol_expected = (rpF[0] == 0)
-        if res[True][0] == 'err' and isinstance(res[True][1], ValueError) and NOSOL in str(res[True][1]):
+        if declared_unsolvable(True) or (res[True][0] == 'err' and isinstance(res[True][1], ValueError) and NOSOL in str(res[True][1])):
             if not nosol_expected:
                 fail({'C06'}, 'nosolution-iff-zero', f'"no solution" raised although the reported initial value is {rpF[0]!r}')
         elif okT and nosol_expected:
             fail({'C06'}, 'nosolution-iff-zero', 'initial value reported 0 but the pruned solve returned a result')
         if conv and vs[0] == 0 and okT:
             fail({'C06'}, 'zero-value-refused', 'true initial value is 0 but the pruned solve returned a result')
-        if conv and acyc and vs[0] > 1e-3 and minprob(tl, players) >= 0.1 and not okT and res[True][0] == 'err' and NOSOL in str(res[True][1]):
+        if conv and acyc and vs[0] > 1e-3 and minprob(tl, players) >= 0.1 and not okT and declared_unsolvable(True):
             fail({'C06'}, 'positive-value-solved', f'true initial value {vs[0]} > 0 (acyclic game) but "no solution" was raised')
     for prune in (True, False):
         if res[prune][0] != 'ok':
